@@ -26,6 +26,7 @@ import (
 var shapeFiles = []string{
 	"main.go",
 	"cmd/namedpipe.go",
+	"cmd/cmd.go",
 	"ingesters/namedpipe/namedpipeingester.go",
 	"ingesters/auditlog/auditlogingester.go",
 	"ingesters/syslog/syslogingester.go",
